@@ -314,5 +314,6 @@ pub fn ceremony(backend: Backend, wrap: Wrap, store: StoreCfg) -> Ceremony {
         rng_seed: 0,
         twin: Twin::None,
         cell: None,
+        unconvertible: Vec::new(),
     }
 }
